@@ -256,7 +256,7 @@ func (s *wire6) send6(w *World, c *Client6) {
 		}
 	}
 	ifx := c.Link
-	w.Send(li, b, w.src6(&cc), ifx, fmt.Sprintf("%s %s xid=%x depth=%d", c, kind, m.TransactionID, depth), c.ID, meta)
+	w.Send(li, b, w.src6(&cc), ifx, fmt.Sprintf("%s %s xid=%x depth=%d", c, kind, m.TransactionID[:], depth), c.ID, meta)
 }
 
 func (s *wire6) send4(w *World, c *Client4) {
